@@ -377,6 +377,10 @@ def run(prog, rep):
     rule_esc(prog, rep)
     rule_block(prog, rep)
     rule_indent(prog, rep)
+    # which string tokens exist at all (escapes accepted, surrogates rejected, where a string ends)
+    # is the lexer's decision: the lexer machine (C03.DFA), shared
+    from . import lexer_dfa
+    lexer_dfa.run(prog, rep)
     rule_conv(prog, rep)
     if rep.tier == "thorough":
         rep.note("C06.NOPANIC: discharged through C03.DFA facts (see C03 thorough tier)")
